@@ -15,6 +15,26 @@ from ..terms import C, V
 from ..rules.common import explore, where, short, nonempty_term, self_attr, find_terms
 
 
+def written_cell(ck):
+    """C03.6: what lands in the HitEnum column is row.cigarString of the row being written"""
+    from ..rules.xmap import extract_writer, row_attrs
+    w = extract_writer(ck)
+    v = w.record_values.get("HitEnum")
+    wf = where(w.fn, w.frame_node) if hasattr(w, "frame_node") else w.fn.where
+    if v is None:
+        raise AnalysisError(f"{w.fn.where}: the writer has no HitEnum column")
+    attrs = row_attrs(v)
+    indirect = [x for x in T.subterms(v) if x[0] == "idx" or (x[0] == "mcall" and x[2] in ("get", "__getitem__"))]
+    if attrs == ["cigarString"] and not indirect:
+        ck.ok("C03.6", "writeAlignments:HitEnum", wf, "HitEnum <- row.cigarString of the row being written", T.show(v)[:80])
+    elif indirect or (attrs and "cigarString" not in attrs):
+        ck.violation("C03.6", "writeAlignments:HitEnum", wf, "the HitEnum written for a record is not computed from that record: it is "
+                     "looked up through another attribute, so two records sharing it (first- and second-pass record of one query in the "
+                     "un-joined file) get the same string", found=T.show(v)[:200], required="row.cigarString")
+    else:
+        raise AnalysisError(f"{wf}: value of the HitEnum column not recognised: {T.show(v)[:160]}")
+
+
 def run(ck):
     ctx = ck.ctx
     p = ctx.p
@@ -23,6 +43,12 @@ def run(ck):
     ck.clause("C03.3", "empty HitEnum only for a record without pairs")
     ck.clause("C03.4", "one walk over all pairs of the record (segment boundaries are not visible in HitEnum)")
     ck.clause("C03.5", "insertion run = |difference of query label numbers| - 1 (strand-symmetric), then the query cursor jumps to the current pair")
+    ck.clause("C03.6", "the HitEnum cell of a written record is that record's own cigarString")
+    written_cell(ck)
+    ck.clause("C03.7", "the pairs a HitEnum is walked over come from one strand and one reference: records are joined only with "
+                       "equal orientation and reference (as C08.4) - the walk assumes monotone query label numbers")
+    from .c08 import _eligibility
+    _eligibility(ck, {}, None, rule="C03.7", wiring=False)
     row = p.find_class("AlignmentResultRow")
     cigar = p.lookup_method(row, "cigarString", None)
     if cigar is None or not cigar.is_property:
